@@ -501,11 +501,24 @@ func (w *Writer) finishSection() error {
 				panic("fail on fresh block")
 			}
 		}
+		if len(w.index) <= threshold || len(w.index)+1 >= len(idx) {
+			// This is the topmost level (or another level
+			// would not be smaller); its last block is
+			// flushed below.
+			break
+		}
+		// Another level follows. Flush the last block of this
+		// level first, so it is written out and indexed too.
+		if err := w.flushBlock(); err != nil {
+			return err
+		}
 	}
-	w.index = nil
 	if err := w.flushBlock(); err != nil {
 		return err
 	}
+	// Entries for the topmost index level must not leak into the
+	// index of the next section.
+	w.index = nil
 
 	blockStats := w.getBlockStats(typ)
 	blockStats.IndexBlocks = w.Stats.idxStats.Blocks - before
